@@ -718,7 +718,7 @@ func check(s *simrt.Sim, raw content.Store, mode string, minCS int, i int, l *la
 func TestC19(t *testing.T) {
 	hx.Main(t, hx.Prop{
 		ID:               "C19",
-		Rule:             "each run draws a converter (eStargz, eStargz with per-layer options, zstd:chunked, zstd:chunked with per-layer options, external TOC, external TOC with per-layer options, external TOC lossless), 1-4 source layers (uncompressed / gzip / zstd / already eStargz; OCI and Docker media types; odd names, many-chunk files), chunk size, min-chunk-size, compression level, prioritized files, builder parallelism; all layers are converted in parallel by ONE converter instance through a fault-injecting content store (every call a scheduling point; in half of the runs Info/ReaderAt/ReadAt/Writer/Write(torn)/Truncate/Commit fail with 1/12 or 1/40, and one conversion may be cancelled at a drawn point); then faults stop and every failed conversion is retried with the same converter (same writer refs, left-over ingests). Oracles per returned descriptor, against the blob read back from the store: digest and size; valid gzip/zstd stream of the promised compression; media type matches it; uncompressed-size annotation = decompressed length; content store uncompressed label = SHA-256 of the decompressed stream; lossless leaves the stream byte-identical; the blob opens and VerifyTOC succeeds under the annotated TOC digest (external TOC: with the TOC blob the finalised TOC image maps to this layer digest, which must exist for every converted layer) and serves every source file; zstd:chunked manifest annotations, when present, describe this blob. Unsynchronised map writes in the converter packages are violations (concurrent-map-write). Calm runs must not fail; after faults every retry must succeed. non-trivial = something converted and (several layers or a retry); distinct = schedule hash x configuration",
+		Rule:             "each run draws a converter (eStargz, eStargz with per-layer options, zstd:chunked, zstd:chunked with per-layer options, external TOC, external TOC with per-layer options, external TOC lossless), 1-4 source layers (uncompressed / gzip / zstd / already eStargz; OCI and Docker media types; odd names, many-chunk files), chunk size, min-chunk-size, compression level, prioritized files, builder parallelism; all layers are converted in parallel by ONE converter instance through a fault-injecting content store (every call a scheduling point; in half of the runs Info/ReaderAt/ReadAt/Writer/Write(torn)/Truncate/Commit fail with 1/12 or 1/40, and one conversion may be cancelled at a drawn point); then faults stop and every failed conversion is retried with the same converter (same writer refs, left-over ingests). In half of the plain eStargz runs the retry comes from a converter with another compression level and chunk size (the left-over ingest must not leak into the new blob). Oracles per returned descriptor, against the blob read back from the store: digest and size; valid gzip/zstd stream of the promised compression; media type matches it; uncompressed-size annotation = decompressed length; content store uncompressed label = SHA-256 of the decompressed stream; lossless leaves the stream byte-identical; the blob opens and VerifyTOC succeeds under the annotated TOC digest (external TOC: with the TOC blob the finalised TOC image maps to this layer digest, which must exist for every converted layer) and serves every source file; zstd:chunked manifest annotations, when present, describe this blob. Unsynchronised map writes in the converter packages are violations (concurrent-map-write). Calm runs must not fail; after faults every retry must succeed. non-trivial = something converted and (several layers or a retry); distinct = schedule hash x configuration",
 		Run:              run,
 		PanicIsViolation: true,
 		HangIsViolation:  true,
